@@ -1393,7 +1393,7 @@ class Repository:
 
         def _write_chunk_ref(ref, contents):
             file_path, chunk_size, stream_start, start = ref
-            restore_to, _ = files_metadata[file_path]
+            restore_to, _, _ = files_metadata[file_path]
 
             with glock:
                 try:
@@ -1480,10 +1480,12 @@ class Repository:
                     digests.remove(digest)
                     # Decide under the lock, so that exactly one thread finalises the file
                     if finished := not digests:
-                        restore_path, metadata = files_metadata.pop(file_path)
+                        restore_path, metadata, size = files_metadata.pop(file_path)
 
                 if finished:
                     logger.info('Finished writing file %s', file_path)
+                    # Drop whatever a pre-existing longer file had past the end
+                    os.truncate(restore_path, size)
                     self.restore_metadata(restore_path, metadata)
                     finished_tracker.update()
 
@@ -1511,7 +1513,6 @@ class Repository:
                     continue
 
                 restore_to = Path(path, *Path(file_path).parts[1:]).resolve()
-                files_metadata[file_path] = (restore_to, file_data['metadata'])
                 digests = files_digests[file_path] = set()
 
                 ordered_chunks = sorted(file_data['chunks'], key=lambda x: x['counter'])
@@ -1533,6 +1534,11 @@ class Repository:
                     )
                     chunk_position += chunk_size
 
+                files_metadata[file_path] = (
+                    restore_to,
+                    file_data['metadata'],
+                    chunk_position,
+                )
                 total_bytes += chunk_position
 
         bytes_tracker = tqdm(
